@@ -18,6 +18,21 @@ impl<'a> RegisterValueIterator<'a> {
 //@|    ensures r.inner == inner,
 }
 
+// [C18] the value iterators handed to C callbacks: each call yields the next decoded value of the rodbus iterator, unchanged, and None
+// exactly when it is exhausted (pointer parameter re-typed by R24; the null case is dropped)
+//@fn ffi/rodbus-ffi/src/iterator.rs | bit_value_iterator_next | tags=C18 | r24m | sub=fn bit_value_iterator_next(=>fn bit_value_iterator_next<'x>( | sub=&mut crate::BitValueIterator<'_>=>&'x mut crate::BitValueIterator<'_> | sub=Option<&crate::ffi::BitValue>=>Option<&'x crate::ffi::BitValue>
+//@|    requires old(it).inner.wf(),
+//@|    ensures final(it).inner.wf(), final(it).inner.bytes@ == old(it).inner.bytes@, final(it).inner.range == old(it).inner.range,
+//@|        old(it).inner.pos == old(it).inner.range.count ==> r is None && final(it).inner.pos == old(it).inner.pos,
+//@|        old(it).inner.pos < old(it).inner.range.count ==> final(it).inner.pos == old(it).inner.pos + 1 && r is Some
+//@|            && r->0.index == old(it).inner.spec_item(old(it).inner.pos as int).index && r->0.value == old(it).inner.spec_item(old(it).inner.pos as int).value,
+//@fn ffi/rodbus-ffi/src/iterator.rs | register_value_iterator_next | tags=C18 | r24m | sub=fn register_value_iterator_next(=>fn register_value_iterator_next<'x>( | sub=&mut crate::RegisterValueIterator<'_>=>&'x mut crate::RegisterValueIterator<'_> | sub=Option<&crate::ffi::RegisterValue>=>Option<&'x crate::ffi::RegisterValue>
+//@|    requires old(it).inner.wf(),
+//@|    ensures final(it).inner.wf(), final(it).inner.bytes@ == old(it).inner.bytes@, final(it).inner.range == old(it).inner.range,
+//@|        old(it).inner.pos == old(it).inner.range.count ==> r is None && final(it).inner.pos == old(it).inner.pos,
+//@|        old(it).inner.pos < old(it).inner.range.count ==> final(it).inner.pos == old(it).inner.pos + 1 && r is Some
+//@|            && r->0.index == old(it).inner.spec_item(old(it).inner.pos as int).index && r->0.value == old(it).inner.spec_item(old(it).inner.pos as int).value,
+
 // (the rodbus RequestHandler trait as the FFI crate implements it; the ghost-log form of the trait is used in the server units)
 pub trait RequestHandler {
     fn read_coil(&self, address: u16) -> Result<bool, ExceptionCode>;
